@@ -35,6 +35,27 @@ def cases(tier, seed):
             if i % 4:
                 continue
         out.append({"cls": cls, "spec": sp, "short_timer": i % 3 == 0})
+    # appended sub-stream: designs SMGen supports by its documentation and that exercise its own handling of
+    # derived factors — a crossed transition (random, direction-sensitive table) or within-trial factor, weights,
+    # MinimumTrials, no other constraint
+    import random
+    for j in range(400 if tier == "thorough" else 60):
+        rng = random.Random("c29s/%s/%d" % (seed, j))
+        sp = {"factors": {}, "order": [], "block": None}
+        for k in range(rng.choice([1, 2, 2])):
+            nm = "F%d" % k
+            sp["factors"][nm] = gen._basic(rng, k, rng.random() < 0.25, nl=rng.choice([2, 2, 3]))
+            sp["order"].append(nm)
+        kind = rng.choice(["transition", "transition", "within"])
+        gen.add_derived(rng, sp, "D0", kind, deps=[rng.choice(sp["order"])] if kind == "transition" else None, else_level=False)
+        names = list(sp["order"])
+        crossing = rng.choice([["D0"], ["F0", "D0"], ["F0"], names[:2]])
+        cons = []
+        if rng.random() < 0.25:
+            cons.append({"type": "MinimumTrials", "trials": rng.randint(3, 8)})
+        sp["block"] = {"op": "cross", "design": names, "crossings": [crossing], "cons": cons, "rcc": rng.random() < 0.5,
+                       "mode": "weight", "align": "equal", "ctor": "CrossBlock"}
+        out.append({"cls": "smgen-friendly", "spec": sp, "short_timer": j % 3 == 0})
     return out
 
 
@@ -84,7 +105,7 @@ def run_case(case):
     spec = case["spec"]
     counters = {}
     fl = ref.analyze(spec)
-    val, st = O.guarded(child, 14, spec, case["short_timer"])
+    val, st = O.guarded(child, 10, spec, case["short_timer"])
     if st != "ok":
         counters["search_" + st] = 1
         return {"nontrivial": False, "violations": [], "counters": counters,
